@@ -151,13 +151,13 @@ impl fmt::Display for Xerr {
                 for (x, _) in src_diff.iter8().take(8) {
                     write!(f, " 0x{:02X}", x)?;
                 }
-                writeln!(f, " ] source at {}", src.start() + fail_pos)?;
+                writeln!(f, " ] source at {}", fail_pos)?;
                 write!(f, " [")?;
                 let (_, pat_diff) = expect.split_at(fail_pos).unwrap();
                 for (x, _) in pat_diff.iter8().take(8) {
                     write!(f, " 0x{:02X}", x)?
                 }
-                write!(f, " ] pattern at {}", expect.start() + fail_pos)
+                write!(f, " ] pattern at {}", fail_pos)
             }
         }
     }
